@@ -7,6 +7,7 @@ From Coq Require Import List Arith Bool ZArith.
 From FT Require Import Base.Dict Model.Edit Model.EditExec Proofs.EditInv Proofs.EditFrame.
 From FT Require Gen.History_gen Proofs.HistoryGeneric Proofs.HistoryTie Proofs.HistoryGen.
 From FT Require Proofs.EditInverse.
+From FT Require Proofs.EditBook Proofs.EditSessions.
 Import ListNotations.
 
 Module G := FT.Gen.History_gen.
@@ -108,6 +109,39 @@ Proof.
            EditInverse.inv_tot (EditInverse.TrI W_dict) (EditInverse.TrI_inv W_dict) (EditInverse.TrI_src W_dict) dA dS ops s0 V).
 Qed.
 
+(* (7) The whole law for the executable edit machine (Proofs/EditSessions.v): for EVERY sequence of
+   edge / node calls, undos and redos from a well-formed state with an empty history (hypotheses as in
+   C03_sessions): the cursor stays inside the timeline, the current model state is observably the state
+   under the cursor, every timeline state is well formed, the timeline never forgets (it is st0 :: ext);
+   and every OUndo / ORedo reports success exactly when the timeline can move, failing exactly at its ends.
+   tl_run is the list+cursor reference run over the same calls. *)
+Theorem C02_sessions_timeline : forall st0 ops,
+  forallb EditSessions.session_fragment ops = true ->
+  WF st0 -> EditSessions.reg_ok st0 -> EditBook.rp_disjoint st0 ->
+  undo_stack st0 = [] -> redo_stack st0 = [] -> EditSessions.pre_along st0 ops ->
+  forall dS,
+  let t := EditSessions.tl_run st0 {| A.tl := [st0]; A.c := 0 |} ops in
+  (A.c state t < length (A.tl state t))%nat /\
+  EditInverse.obs_eq (run st0 ops) (nth (A.c state t) (A.tl state t) dS) /\
+  Forall WF (A.tl state t) /\
+  (exists ext, A.tl state t = st0 :: ext).
+Proof. exact EditSessions.session_timeline. Qed.
+
+Theorem C02_sessions_undo_redo : forall st0 ops,
+  forallb EditSessions.session_fragment ops = true ->
+  WF st0 -> EditSessions.reg_ok st0 -> EditBook.rp_disjoint st0 ->
+  undo_stack st0 = [] -> redo_stack st0 = [] -> EditSessions.pre_along st0 ops ->
+  forall pre post,
+  (ops = pre ++ OUndo :: post ->
+     let t := EditSessions.tl_run st0 {| A.tl := [st0]; A.c := 0 |} pre in
+     fst (snd (step (run st0 pre) OUndo)) = (if snd (A.t_undo state t) then 1 else 2) /\
+     (snd (A.t_undo state t) = false <-> A.c state t = 0%nat)) /\
+  (ops = pre ++ ORedo :: post ->
+     let t := EditSessions.tl_run st0 {| A.tl := [st0]; A.c := 0 |} pre in
+     fst (snd (step (run st0 pre) ORedo)) = (if snd (A.t_redo state t) then 1 else 2) /\
+     (snd (A.t_redo state t) = false <-> (length (A.tl state t) <= S (A.c state t))%nat)).
+Proof. exact EditSessions.session_undo_redo. Qed.
+
 Example C02_nonvacuous :
   let inv := fun (s : Z) (a : Z) => ((s - a)%Z, (- a)%Z) in
   let ops := [A.HEdit Z Z 5%Z 5%Z; A.HEdit Z Z 2%Z 7%Z; A.HUndo Z Z; A.HUndo Z Z; A.HEdit Z Z 1%Z 1%Z;
@@ -124,3 +158,5 @@ Print Assumptions C02_false_means_nothing.
 Print Assumptions C02_one_step.
 Print Assumptions C02_edit_machine_uses_generated.
 Print Assumptions C02_edit_machine_timeline.
+Print Assumptions C02_sessions_timeline.
+Print Assumptions C02_sessions_undo_redo.
